@@ -704,6 +704,64 @@ fn qtwin_after(op: &Op, main_res: Option<&str>, main_snap: &str, out: &mut Strin
     }
 }
 
+/// capi cases: the query functions of the C API on the context (compared with Model/CapiKeys.v: c_flags ...)
+fn observe_c(out: &mut String) {
+    use chewing_capi::candidates::*;
+    use chewing_capi::layout::chewing_get_KBType;
+    use chewing_capi::output::*;
+    let c = CUR_CTX.with(|c| c.get());
+    if c.is_null() {
+        return;
+    }
+    unsafe {
+        let take = |p: *mut std::ffi::c_char| -> String {
+            if p.is_null() {
+                return "<null>".into();
+            }
+            let s = std::ffi::CStr::from_ptr(p).to_string_lossy().into_owned();
+            chewing_capi::setup::chewing_free(p.cast());
+            s
+        };
+        let flags = [
+            chewing_commit_Check(c),
+            chewing_buffer_Check(c),
+            chewing_buffer_Len(c),
+            chewing_bopomofo_Check(c),
+            chewing_cursor_Current(c),
+            chewing_cand_CheckDone(c),
+            chewing_cand_TotalPage(c),
+            chewing_cand_ChoicePerPage(c),
+            chewing_cand_TotalChoice(c),
+            chewing_cand_CurrentPage(c),
+            chewing_aux_Check(c),
+            chewing_aux_Length(c),
+            chewing_keystroke_CheckIgnore(c),
+            chewing_keystroke_CheckAbsorb(c),
+            chewing_get_KBType(c),
+        ];
+        let commit = take(chewing_commit_String(c));
+        let buffer = take(chewing_buffer_String(c));
+        let aux = take(chewing_aux_String(c));
+        let mut cands = vec![];
+        chewing_cand_Enumerate(c);
+        let mut guard = 0;
+        while chewing_cand_hasNext(c) == 1 && guard < 50_000 {
+            cands.push(cps(&take(chewing_cand_String(c))));
+            guard += 1;
+        }
+        let _ = take_conversion_log();
+        let _ = writeln!(
+            out,
+            "OC flags={} commit={} buffer={} cands={} aux={}",
+            flags.iter().map(|f| f.to_string()).collect::<Vec<_>>().join(","),
+            cps(&commit),
+            cps(&buffer),
+            cands.join(";"),
+            cps(&aux)
+        );
+    }
+}
+
 fn observe(ed: &mut Editor, out: &mut String) {
     // the observation itself converts once: log it separately
     let disp = catch(AssertUnwindSafe(|| {
@@ -750,6 +808,7 @@ fn observe(ed: &mut Editor, out: &mut String) {
             ents.sort();
             let _ = write!(o, " user={}", ents.join(";"));
             let _ = writeln!(out, "{}", o);
+            observe_c(out);
         }
     }
 }
